@@ -1,9 +1,90 @@
 """Per-property manifest texts."""
+ORACLE = 'Trusted: the Python reference model (self-tested on RFC 7748/8032/9496 and in-repo vectors before every run), the driver\'s hex plumbing, hashlib SHA-512. Inputs are constructed/sampled, not enumerated: verdict = held on the executions observed.'
 CHECKS = {
+    'C01': {
+        'technique': 'runtime monitoring: reference-model checker over recorded field-op request/response logs, raw-limb hooks, all serial backends + AVX2/IFMA vector fields',
+        'text': 'Every crate-private field operation is driven through guarded hooks on operands in every representation class (bytes, nominal limbs, limbs at the reducing-op output bound, limbs at the documented pre-condition headroom, all-limbs-at-bound), incl. chains that feed raw results back; each canonical result is judged against Python integers mod p on the value denoted by the input limbs. u64, u32, fiat64, fiat32 serial types in quick; all six builds, checked profile and both vector field types in thorough.',
+        'note': ORACLE,
+    },
     'C02': {
-        'technique': 'runtime monitoring: offline checker of recorded scalar request/response logs against an integer reference model, release + overflow-checked builds of both scalar backends',
-        'text': 'Every public scalar constructor/operator/batch/int-conversion is executed on class-tagged corner values (k*l+-e, 2^252.., limb-boundary patterns, 512-bit extremes, products landing on either side of the final Montgomery subtraction) plus seeded random fill, in the u64 and u32 scalar backends (release and overflow-checked profiles); every response byte is judged against Python integer arithmetic mod l. Assurance: held on the executions observed; no claim for unobserved values.',
-        'note': 'Trusted: Python int arithmetic, hashlib SHA-512, the driver\'s hex plumbing. Values are sampled, not enumerated.',
+        'technique': 'runtime monitoring: reference-model checker over recorded scalar request/response logs, release + overflow-checked builds of both scalar backends',
+        'text': 'Every public scalar constructor/operator/batch/int-conversion is executed on class-tagged corner values (k*l+-e, 2^252.., limb-boundary patterns, 512-bit extremes, products landing on either side of the final Montgomery subtraction) plus seeded random fill, in the u64 and u32 scalar backends (release and overflow-checked profiles); every response byte is judged against Python integer arithmetic mod l.',
+        'note': ORACLE,
+    },
+    'C03': {
+        'technique': 'runtime monitoring: affine-group-law reference checker + curve-equation invariant on hooked coordinates after every step of recorded operation histories',
+        'text': 'Decoder sweep over constructed encoding classes (all torsion encodings, non-canonical y, sign bit on x=0, non-residues), a directed (op x operand relation x torsion class) matrix and random operation histories whose registers carry the exact internal (X,Y,Z,T) through the raw-limb hook; every result is checked against the complete affine addition law and the invariants -X^2Z^2+Y^2Z^2=Z^4+dX^2Y^2, XY=ZT, Z!=0.',
+        'note': ORACLE,
+    },
+    'C04': {
+        'technique': 'runtime monitoring: discrete-log-shadow reference checker over every scalar-multiplication entry point under every forced dispatch target; digit-identity checker on hooked recoders',
+        'text': 'Every scalar-multiplication entry point (variable/fixed base, all table radices and conversions, clamped, vartime double-base, Straus/Pippenger at sizes around 190/500/800, precomputed mixed, ladder and bit-string ladder, Ristretto wrappers) runs on points a*B+j*T8 with known (a,j) and digit-pattern / unreduced scalars, under each implementation compiled into the build (Serial, AVX2, IFMA via the dispatch hook); results judged against the shadow sum; recoding digit vectors judged against their defining identities.',
+        'note': ORACLE + ' Expectation for large n trusts shadow linearity (generator knows every a_i, j_i).',
+    },
+    'C05': {
+        'technique': 'runtime monitoring: differential replay of one public-API request log against one driver build per configuration / dispatch target, byte-for-byte response comparison',
+        'text': 'The public-API request streams of the other properties are replayed unchanged against serial/fiat x 32/64, simd, avx512 builds, tables on/off, and each forced dispatch target; every response is compared byte for byte across builds. Assurance: any observable divergence on the replayed requests is reported; the reference checkers of C01-C09 judge the same stream so all-wrong-alike is caught there.',
+        'note': 'Trusted: request-id join and token comparison. Real 32-bit / non-x86 targets cannot be built here.',
+    },
+    'C06': {
+        'technique': 'runtime monitoring: RFC 9496 reference checker over recorded decode/encode/equality/map/batch logs with constructed rejection classes and coset representatives',
+        'text': 'ristretto255 DECODE/ENCODE/MAP transcribed from RFC 9496 judge: decoder sweep with each rejection class solved for, all four coset representatives of generated elements (equal, identical encoding), distinct elements (unequal), one-way map on corner inputs via public API, pass-through digest and hook, batched double-and-compress incl. torsion representatives, and operation histories.',
+        'note': ORACLE,
+    },
+    'C07': {
+        'technique': 'runtime monitoring: RFC 7748 ladder reference checker over recorded X25519 / Montgomery / conversion logs incl. iterated-vector history',
+        'text': '(k,u) over constructed u classes (small order, twist, non-canonical, bit 255) through x25519(), all typed DH secrets, Montgomery*Scalar, mul_clamped, mul_bits_be; both-party agreement using driver-computed public keys; birational conversions with exceptional points; equality/hash mod p; RFC 7748 iteration (1000 quick / 20000 thorough steps) executed by the driver.',
+        'note': ORACLE,
+    },
+    'C08': {
+        'technique': 'runtime monitoring: RFC 8032 reference checker over recorded keygen/sign/verify logs incl. hazmat paths with a pass-through digest',
+        'text': 'Seeds (corner+random) x boundary-length messages x contexts 0..255 (+ refusal at 256, 257, 1000): public key and signature bytes (pure, ph, ctx, three signing paths, hazmat with SHA-512 and a pass-through digest placing r and k) judged against RFC 8032 in Python; every produced signature is fed to all verify variants and batch, then re-verified with one flipped bit in key/message/context/R/S.',
+        'note': ORACLE,
+    },
+    'C09': {
+        'technique': 'runtime monitoring: predicate reference checker over constructed adversarial (key,message,signature) triples on legacy and non-legacy builds',
+        'text': 'Adversarial triples are constructed (not mutated): torsion keys and R in every accepted encoding with messages searched so that [k]A cancels / does not cancel, mixed-order keys, cofactored-only solutions, S in [l,2^256) incl. S+l, S+2l, non-canonical R, undecodable keys/R, plus the VALIDATIONVECTORS file; verify, verify_strict, raw_verify and prehashed variants are judged against the documented predicate evaluated in Python over the full group of order 8l.',
+        'note': ORACLE,
+    },
+    'C10': {
+        'technique': 'runtime monitoring: valgrind memcheck as secret-taint monitor (secret bytes marked undefined, any tainted branch/address reported) + ptrace single-step instruction/address trace differ between runs that differ only in the secret',
+        'text': 'Each constant-time operation runs in the release driver with its secret inputs marked undefined through valgrind client requests; memcheck (precise definedness) reports any conditional jump or address computation that depends on them, attributed to one request by error-counter deltas; outputs that the API defines as public are declassified. A ptrace single-stepper records the RIP and memory-operand address sequence between two markers for runs that differ only in the secret and requires them identical (mandatory for IFMA, which valgrind cannot execute).',
+        'note': 'Decided for the compiled artefact of the pinned compilers on x86-64, for the instructions valgrind/ptrace observe, along executed paths. Micro-architectural timing is out of scope. One reviewed tainted-but-constant site is listed in ct_invariant_sites.json.',
+    },
+    'C11': {
+        'technique': 'runtime monitoring: overflow-checked + debug-assertion builds as sanitizer (panic monitor), release/checked differential, limb-bound monitor hooks in the AVX2/IFMA kernels with high-water marks, contract-boundary starts through raw-limb hooks',
+        'text': 'The whole public-API stream plus kernels started at their contract boundary (all limbs simultaneously at the largest producer output) run in overflow-checks+debug-assertions builds: any panic is a violation, and checked vs release outputs must agree byte for byte. In simd/avx512 builds a guarded monitor at the entry of every vector kernel compares lanes with the documented precondition and records high-water marks (these kernels wrap silently).',
+        'note': 'Decided on concrete limb values only; no interval analysis (other technique family). Bound thresholds transcribed from the module docs.',
+    },
+    'C12': {
+        'technique': 'runtime monitoring: complete enumeration - constants dump monitor through hooks from every build + one public-API probe multiplication per table entry under every dispatch target',
+        'text': 'Finite set enumerated completely on every run: every crate-private field/scalar/point constant, all 32x8 radix-16 entries, 64 affine odd multiples, 64 AVX2 and 64 IFMA cached odd multiples, P_TIMES_*, identities, dumped as raw limbs from each build and compared with definitions recomputed in Python; plus a behavioural probe (single-digit scalars selecting each entry) through the public API.',
+        'note': ORACLE + ' Constants of dependencies are out of scope.',
+    },
+    'C13': {
+        'technique': 'runtime monitoring: conjunction-of-single-verification reference checker over recorded batch-verification histories (permutation, duplication, repetition)',
+        'text': 'Batches of honest signatures at sizes on both sides of the Straus/Pippenger (190 terms) and window switches, with none/one(first,middle,last)/many/all entries corrupted in message, key, R, S, S+l, off-curve R, each batch also shuffled, with a duplicated entry, and called twice; slice-length mismatches; under every forced dispatch target. Expected = conjunction of the single-verification predicate.',
+        'note': ORACLE + ' A false accept needs a 2^-128 event and is ignored.',
+    },
+    'C14': {
+        'technique': 'runtime monitoring: instrumenting global allocator (dealloc-content log compared across runs differing only in the secret) + drop monitor (bytes of storage after drop_in_place)',
+        'text': 'The driver\'s global allocator snapshots every block at dealloc inside constant-time multiscalar multiplication and scalar batch inversion; logs (size, content) must be identical across runs that differ only in the secret scalars, for each forced backend copy. Secret-holding types are built in ManuallyDrop storage, used, dropped in place, and their storage searched for the secret and its derived forms; explicit zeroize results are checked.',
+        'note': 'Release profile (the optimiser is what might elide a wipe). Stack copies and registers are out of scope (the README disclaims them too).',
+    },
+    'C15': {
+        'technique': 'runtime monitoring: panic monitor (catch_unwind) over a totality sweep in release and overflow-checked builds; ASan build in thorough',
+        'text': 'Every slice decoder at every length 0..96, array decoders, all verification functions incl. batch, hash-to-group/scalar maps, X25519 and conversions on random bytes and on algebraically exceptional inputs solved for in Python (zero denominators, u=-1, 1+2r^2 special, y=+-1, s=0, torsion keys/R), contexts of every length; any panic or process death is a violation.',
+        'note': 'Out-of-contract API usage (unequal-length iterators, zero to batch_invert, verification contexts > 255) is outside the property domain.',
+    },
+    'C16': {
+        'technique': 'runtime monitoring: reference checker of serialised bytes and deserialiser accept sets (bincode, strict bincode, JSON) against the native decoders modelled in Python',
+        'text': 'Every serialisable type x {bincode, bincode rejecting trailing bytes, JSON} x {valid corner/random values, each invalid class of the native decoder, short, long, wrong element type}: serialised bytes must equal canonical encoding + format framing, deserialise(serialise(v)) = v, and each deserialiser must accept exactly what the native decoder accepts; StaticSecret must round-trip unclamped.',
+        'note': ORACLE + ' Format-level behaviour (bincode tolerating trailing bytes by default) is not held against the crates.',
+    },
+    'C17': {
+        'technique': 'runtime monitoring: reference checker of ff/group trait entry points (Euler criterion, defining relations of constants, shadow group model)',
+        'text': 'sqrt on constructed residues x^2 and non-residues g*x^2, invert, from_repr/from_repr_vartime on the canonical-decoding corner list, trait constants against their defining relations (generator order via the factorisation of l-1 with primality-checked factors), GroupEncoding through the Edwards/Ristretto sweeps for EdwardsPoint/SubgroupPoint/RistrettoPoint, into_subgroup / clear_cofactor on a*B+j*T8 for all j, trait group ops vs the shadow model.',
+        'note': ORACLE,
     },
 }
 NOT_APPLICABLE = {}
